@@ -102,6 +102,9 @@ class Check:
         self.seed = seed
         self.budget_s = budget_s if budget_s is not None else prop.BUDGET[tier]["seconds"]
         self.max_cases = max_cases if max_cases is not None else prop.BUDGET[tier]["cases"]
+        # a floor on the number of cases: on a machine loaded by other work the time budget alone would explore less than the
+        # check is known to need; the search then continues past the time budget (at most 4x)
+        self.min_cases = 0 if (budget_s is not None or max_cases is not None) else prop.BUDGET[tier].get("min_cases", 0)
         self.workers = workers or NWORKERS
         self.pool = None
         self.kf = KnownFindings()
@@ -211,13 +214,14 @@ class Check:
         n_unlisted = 0
         if hasattr(prop, "prepare"):
             prop.prepare(self)
-        while index < self.max_cases and time.time() < deadline:
+        hard_deadline = t_start + 4 * self.budget_s
+        while index < self.max_cases and (time.time() < deadline or (index < self.min_cases and time.time() < hard_deadline)):
             cases = []
             for _ in range(min(batch, self.max_cases - index)):
                 rs = run_seed(self.seed, prop.ID, index)
                 cases.append(prop.generate(Rng(rs), self.tier, index, rs))
                 index += 1
-            outcomes = self.execute_cases(cases, deadline=deadline)
+            outcomes = self.execute_cases(cases, deadline=(deadline if index > self.min_cases else hard_deadline))
             for case, oc in zip(cases, outcomes):
                 if oc is None:
                     continue
